@@ -145,6 +145,8 @@ class WriteBack(Harness):
         "fastq_eq": dict(fmt="fastq", records=[[1, 2], [1, 2], [2, 1]]),
         "vcf": dict(fmt="vcf", rows=[[1, 1, 1, 1, 1, 1, 2, 2, 2, 3, 3], [2, 2, 1, 1, 2, 1, 1, 1, 2, 3, 3], [1, 1, 2, 1, 1, 1, 1, 3, 2, 3, 3]],
                     header=["##fileformat=VCFv4.2", "#CHROM\tPOS\tID\tREF\tALT\tQUAL\tFILTER\tINFO\tFORMAT\tS1\tS2"]),
+        # bedGraph lines in a .wig file (values written d.d, which str() of the parsed double reproduces)
+        "wig": dict(fmt="wig", rows=[[1, 1, 1, 3], [2, 1, 2, 3], [1, 2, 1, 3]], literal_floats=["1.5", "0.2", "7.0"]),
         "sam_crlf": dict(fmt="sam", rows=[[1, 1, 1, 2, 1, 2, 1, 1, 1, 2, 2, 2], [2, 1, 1, 1, 1, 1, 1, 1, 1, 1, 1, 3], [1, 2, 1, 1, 1, 1, 1, 1, 1, 1, 1, 1]],
                          header=["@HD\tVN:1.0"], crlf=True),
     }
@@ -155,6 +157,8 @@ class WriteBack(Harness):
             progs = list(PROGRAMS) if (tier == "thorough" or name in ("bed3", "fastq")) else ["all", "tail", "mask", "fixed", "cat", "step_list"]
             if name in ("bed3_crlf", "fastq_plusname", "fastq_crlf", "fasta2_crlf", "sam_crlf") and tier == "quick":
                 progs = ["all", "tail", "fixed", "cat"] if name != "fasta2_crlf" else ["tail", "mask"]
+            if name == "wig":
+                progs = ["all", "tail", "fixed", "mask"] + (["rev", "cat"] if tier == "thorough" else [])
             if name in ("bed3_eq", "fastq_eq"):
                 progs = ["list3", "fixed_asc"] + (["cat", "mask", "rev"] if tier == "thorough" else [])
             for p in progs:
